@@ -126,6 +126,10 @@ func (t *treeGen) node(depth int) *Node {
 		return n
 	default:
 		n := &Node{Kind: "anon"}
+		if t.rng.Intn(5) < 2 {
+			t.nNamed++
+			n.Wrap = t.nNamed
+		}
 		for k := t.rng.Intn(4); k > 0; k-- {
 			n.Kids = append(n.Kids, t.node(depth+1))
 		}
@@ -310,6 +314,35 @@ func compareTwin(e *env, apply func(godi.Collection) error, leaves []flatLeaf, s
 				report("module-error-chain", "extra-level", fmt.Sprintf("the failing entry %s sits in named modules %v, but the error carries a further ModuleError %q: %v", leaves[failIdx].Op, names, me.Module, errA))
 			}
 			stats["module_error_chains_checked"]++
+		}
+		if okChain {
+			// the same chain seen the standard way: walking Unwrap from the returned error meets
+			// one ModuleError per enclosing named module, outermost first ...
+			var seen []string
+			wraps := map[int]bool{}
+			walkErr(errA, func(x error) {
+				switch me := x.(type) {
+				case godi.ModuleError:
+					seen = append(seen, me.Module)
+				case *godi.ModuleError:
+					if me != nil {
+						seen = append(seen, me.Module)
+					}
+				case *wrapErr:
+					wraps[me.id] = true
+				}
+			})
+			if strings.Join(seen, "\x00") != strings.Join(names, "\x00") {
+				report("module-error-chain", "unwrap-chain", fmt.Sprintf("the failing entry %s sits in named modules %q (outermost first); walking Unwrap from the returned error meets the ModuleErrors %q: %v", leaves[failIdx].Op, names, seen, errA))
+			}
+			// ... and every error a hand-written grouping option put around its children's
+			// failure (it is the original cause of what the enclosing module saw)
+			for _, id := range leaves[failIdx].Wraps {
+				stats["error_annotations_checked"]++
+				if !wraps[id] {
+					report("cause-unreachable", "annotation-of-a-grouping-option", fmt.Sprintf("the failing entry %s sits inside the error-annotating closure #%d; its annotation is not reachable from the returned error: %v", leaves[failIdx].Op, id, errA))
+				}
+			}
 		}
 		// the original cause: whatever is reachable from the direct call's error must be
 		// reachable from the wrapped one
